@@ -8,6 +8,7 @@ import (
 	"net"
 	"net/http"
 	"net/http/httptest"
+	"os"
 	"sync"
 )
 
@@ -31,12 +32,26 @@ type Upstream struct {
 	Log  []*UpReq
 	// Respond customises the answer (default: 200, X-Upstream: name, body "upstream:<name>")
 	Respond func(w http.ResponseWriter, r *http.Request)
+	sock    string
 }
 
 // NewUpstream starts a recording upstream.
 func NewUpstream(name string) *Upstream {
 	u := &Upstream{Name: name}
 	l, err := net.Listen("tcp", "127.0.0.1:0")
+	if err != nil {
+		panic(err)
+	}
+	u.srv = &httptest.Server{Listener: l, Config: &http.Server{Handler: http.HandlerFunc(u.handle)}}
+	u.srv.Start()
+	return u
+}
+
+// NewUpstreamUnix starts a recording upstream on a unix socket (URL() is unix://<path>).
+func NewUpstreamUnix(name, sock string) *Upstream {
+	u := &Upstream{Name: name, sock: sock}
+	_ = os.Remove(sock)
+	l, err := net.Listen("unix", sock)
 	if err != nil {
 		panic(err)
 	}
@@ -64,7 +79,12 @@ func (u *Upstream) handle(w http.ResponseWriter, r *http.Request) {
 }
 
 // URL of the upstream (http://127.0.0.1:port).
-func (u *Upstream) URL() string { return u.srv.URL }
+func (u *Upstream) URL() string {
+	if u.sock != "" {
+		return "unix://" + u.sock
+	}
+	return u.srv.URL
+}
 
 // Take returns and clears the log.
 func (u *Upstream) Take() []*UpReq {
